@@ -54,7 +54,11 @@ PROPS = {
     level_note="from_iN/normalize/to_string/parse contracts are A3/A2.", not_covered=["f32/f64 conversions"]),
  'C18': dict(units=['ds'], assumptions=[A1, A5, A6],
     level_text="Unbounded proof: each of the nine get_*_descriptor returns the entry stored under exactly (kind, name) if it has that kind, else the documented default; each set_* writes exactly that key; a registration is local to its key. describe() itself (iterator adapters, dyn calls) is outside Verus's reach.",
-    level_note="Store behind trusted new/set/get over a map view (A5); describe() not covered.", not_covered=["ExprAST::describe (dispatch per node, no-panic)", "default_*_descriptor bodies"]),
+    level_note="Store behind trusted new/set/get over a map view (A5); describe() and the default_* bodies are outside Verus's reach: bounded stand-in only.",
+    always_bounded=dict(function='ExprAST::describe + default_*_descriptor', categories=['parse'],
+        why="describe() uses iterator adapters and applications of dyn Fn values returned by calls; Verus rejects it, Kani needs minutes per node kind on String-heavy code",
+        bound="fixed corpus (about 1700 inputs of vx/corpus.py, every node kind, default descriptors only - registration is not reachable through the public API): describe() returns, and equals the documented default rendering"),
+    not_covered=["ExprAST::describe beyond the bounded corpus (dispatch per node, no-panic)", "describe() with registered (non-default) descriptors"]),
 }
 for _p in PROPS.values():
     _p.setdefault('level', 'proof')
